@@ -11,6 +11,7 @@ import (
 	"fmt"
 	"os"
 	"reflect"
+	"regexp"
 	"sort"
 	"strconv"
 	"strings"
@@ -43,7 +44,12 @@ type Leaf struct {
 }
 
 func (l Leaf) Hello() string         { return l.p + ".Hello()" }
-func (l *Leaf) PHello() string       { return l.p + ".PHello()" }
+func (l *Leaf) PHello() string {
+	if l == nil {
+		return "nil.PHello()"
+	}
+	return l.p + ".PHello()"
+}
 func (l Leaf) Greet(s string) string { return l.p + ".Greet(" + s + ")" }
 func (l Leaf) secret() string        { return l.p + ".secret()" }
 
@@ -64,12 +70,23 @@ type Mid struct {
 }
 
 func (m Mid) Hello() string               { return m.p + ".Hello()" }
-func (m *Mid) PHello() string             { return m.p + ".PHello()" }
+func (m *Mid) PHello() string {
+	if m == nil {
+		return "nil.PHello()"
+	}
+	return m.p + ".PHello()"
+}
 func (m Mid) Greet(s string) string       { return m.p + ".Greet(" + s + ")" }
 func (m Mid) Join(s string, i int) string { return m.p + ".Join(" + s + "," + strconv.Itoa(i) + ")" }
 func (m Mid) Pick(i int) Leaf             { return mkLeaf(m.p+".Pick("+strconv.Itoa(i)+")", m.v) }
 func (m Mid) GetLeaf() Leaf               { return mkLeaf(m.p+".GetLeaf()", m.v) }
-func (m *Mid) GetPLeaf() *Leaf            { l := mkLeaf(m.p+".GetPLeaf()", m.v); return &l }
+func (m *Mid) GetPLeaf() *Leaf {
+	if m == nil {
+		return nil
+	}
+	l := mkLeaf(m.p+".GetPLeaf()", m.v)
+	return &l
+}
 func (m Mid) GetNil() *Leaf               { return nil }
 func (m Mid) GetLeaves() []Leaf           { return mkLeaves(m.p+".GetLeaves()", 2, m.v) }
 func (m Mid) GetM() map[string]Leaf       { return mkLeafMap(m.p+".GetM()", m.v, "a", "b") }
@@ -497,6 +514,12 @@ func apply(c cur, s Step) (out cur, why string, ptrOnTemp bool) {
 		return c, "not-indexable", false
 	case s.M != "":
 		if c.v.Kind() == reflect.Ptr && c.v.IsNil() {
+			if _, onValue := c.v.Type().Elem().MethodByName(s.M); !onValue {
+				if _, onPtr := c.v.Type().MethodByName(s.M); onPtr {
+					// Go calls a pointer-receiver method with a nil receiver; what happens next is the method's business
+					return c, "unspec:ptr-method-on-nil", false
+				}
+			}
 			return c, "nil-pointer", false
 		}
 		m := c.v.MethodByName(s.M)
@@ -550,6 +573,9 @@ func walk(c cur, steps []Step) (res walkRes) {
 		var why string
 		var pt bool
 		if c, why, pt = apply(c, s); why != "" {
+			if strings.HasPrefix(why, "unspec:") {
+				return walkRes{unspec: why[7:]}
+			}
 			return walkRes{why: why, addrUnspe: res.addrUnspe}
 		}
 		if pt {
@@ -635,18 +661,55 @@ func (c Case) cleanFailClass() string {
 
 // ---- the oracle ----------------------------------------------------------------------
 
-type stats struct {
-	mu sync.Mutex
-	m  map[string]*[4]int64 // sig -> exact, clean-on-completable, failed-as-expected, violation
+var debug = os.Getenv("C11_DEBUG") != ""
+
+type badRec struct {
+	n   int
+	tpl string
+	msg string
 }
 
-var shapeStats = stats{m: map[string]*[4]int64{}}
+var badMu sync.Mutex
+var bads = map[string]*badRec{}
+
+var reQuoted = regexp.MustCompile(`"[^"]*"`)
+
+// noteBad groups failures by a normalised message (debug aid only).
+func noteBad(c Case, f *vk.Fail) {
+	msg := f.Msg
+	if i := strings.Index(msg, "]: "); i >= 0 {
+		msg = msg[i+3:]
+	}
+	cat := reQuoted.ReplaceAllString(msg, `"…"`)
+	if f.Class != "" {
+		cat = f.Class
+	}
+	tpl := c.template()
+	badMu.Lock()
+	b := bads[cat]
+	if b == nil {
+		b = &badRec{tpl: tpl, msg: msg}
+		bads[cat] = b
+	}
+	b.n++
+	if len(tpl) < len(b.tpl) {
+		b.tpl, b.msg = tpl, msg
+	}
+	badMu.Unlock()
+}
+
+type stats struct {
+	mu sync.Mutex
+	m  map[string]*[5]int64 // sig -> exact, clean-on-completable, failed-as-expected, wrong value, panic
+}
+
+var shapeStats = stats{m: map[string]*[5]int64{}}
 
 func (s *stats) add(sig string, k int) {
 	s.mu.Lock()
 	e := s.m[sig]
 	if e == nil {
-		e = &[4]int64{}
+		e = &[5]int64{}
 		s.m[sig] = e
 	}
 	e[k]++
@@ -659,11 +722,16 @@ func render(c Case) (string, vk.Res) {
 	return src, vk.Safe(func() (string, error) { return plush.Render(src, plush.NewContextWith(d)) })
 }
 
-func checkCase(r *vk.Run, c Case) *vk.Fail {
+func checkCase(r *vk.Run, c Case) (out *vk.Fail) {
 	defer r.Watch("path", c)()
 	fail := func(class, f string, a ...interface{}) *vk.Fail {
 		return &vk.Fail{Kind: "path", Class: class, Case: c, Msg: fmt.Sprintf(f, a...)}
 	}
+	defer func() {
+		if out != nil && debug {
+			noteBad(c, out)
+		}
+	}()
 	root := mkRoot(c.Variant)
 	start := cur{reflect.ValueOf(root), true}
 	if !c.Ptr {
@@ -683,7 +751,7 @@ func checkCase(r *vk.Run, c Case) *vk.Fail {
 		}
 	}
 	if res.Panicked() {
-		shapeStats.add(sig, 3)
+		shapeStats.add(sig, 4)
 		cls := ""
 		if neg {
 			cls = "panic/negative-index"
@@ -795,6 +863,10 @@ func judgeFor(r *vk.Run, c Case, fc int, start cur, res vk.Res, where string, fa
 	for _, s := range prefix {
 		var why string
 		if coll, why, _ = apply(coll, s); why != "" {
+			if strings.HasPrefix(why, "unspec:") {
+				r.Exclude("unspecified/" + why[7:])
+				return nil
+			}
 			r.Count(c.key(), "for/broken-prefix/"+why)
 			if res.Err != nil || res.Out == "" {
 				shapeStats.add(sig, 2)
@@ -1330,13 +1402,23 @@ func dumpShapes(r *vk.Run) {
 		exact += e[0]
 		clean += e[1]
 		failedOK += e[2]
-		bad += e[3]
+		bad += e[3] + e[4]
 		if e[1] > 0 {
 			cleanSigs[sig] = e[1]
 		}
 	}
 	r.Extra("verdicts", map[string]int64{"exact": exact, "clean_failure_on_completable": clean, "failed_cleanly_as_required_or_allowed": failedOK, "wrong_or_panic": bad})
-	if os.Getenv("C11_DEBUG") != "" {
+	if debug {
+		var cats []string
+		for k := range bads {
+			cats = append(cats, k)
+		}
+		sort.Strings(cats)
+		for _, k := range cats {
+			fmt.Printf("BAD n=%-6d %s\n      e.g. %s => %s\n", bads[k].n, k, bads[k].tpl, bads[k].msg)
+		}
+	}
+	if os.Getenv("C11_SHAPES") != "" {
 		var sigs []string
 		for s := range shapeStats.m {
 			sigs = append(sigs, s)
@@ -1344,9 +1426,7 @@ func dumpShapes(r *vk.Run) {
 		sort.Strings(sigs)
 		for _, s := range sigs {
 			e := shapeStats.m[s]
-			if e[1] > 0 || e[3] > 0 {
-				fmt.Printf("SHAPE %-14s exact=%d clean=%d failok=%d bad=%d\n", s, e[0], e[1], e[2], e[3])
-			}
+			fmt.Printf("SHAPE %-14s exact=%d clean=%d failok=%d wrong=%d panic=%d\n", s, e[0], e[1], e[2], e[3], e[4])
 		}
 	}
 }
